@@ -260,6 +260,7 @@ def module_load(chk):
     ps = positional_params(fn)
     sd, prefix = ps[1], ps[2]
     n_paths = 0
+    n_flat_assign = {True: 0, False: 0}
     for p in paths_of(fn):
         if p.end[0] == "raise":
             continue
@@ -295,11 +296,20 @@ def module_load(chk):
             is_param = isinstance(val, ast.Call) and U(val.func) == "torch.nn.Parameter"
             chk.require("C10.R2", site, is_param, "load: the rebuilt weight is wrapped in a Parameter", "QModuleMixin._load_from_state_dict", "parameter", "reloading a frozen model")
             assign = p.holds("local_metadata.get('assign_to_params_buffers', False)")
+            if is_param:
+                n_flat_assign[assign is True] += 1
+            if assign is True and is_param:
+                inner = U(val.args[0]) if val.args else ""
+                chk.require("C10.R9", site, ".to(" not in inner and ".cpu()" not in inner and ".cuda(" not in inner, f"load (assign mode): the checkpoint weight is assigned as it is, not moved to the placeholder device (`{inner[-60:]}`)", "QModuleMixin._load_from_state_dict", "assign mode keeps the checkpoint tensor",
+                            "load_state_dict(assign=True) into a model built on the meta device: the frozen weight is moved to `meta`, its codes and scales are lost")
             if assign is not True and is_param:
                 inner = U(val.args[0]) if val.args else ""
                 chk.require("C10.R9", site, inner.endswith(".to(self.weight.device)"), f"load: rebuilt weight moved to the device of the current weight (`...{inner[-40:]}`)", "QModuleMixin._load_from_state_dict", "rebuilt weight device", "loading a CPU state_dict into a model on another device: weight and bias/scales end up on different devices")
         else:
             chk.require("C10.R2", site, w is None, "load: the weight is only replaced when a flattened quantized weight is present", "QModuleMixin._load_from_state_dict", "weight replaced on plain path", "reloading an unfrozen model")
+    if n_flat_assign[False]:
+        chk.require("C10.R9", f"{mi.rel}:{fn.lineno}", n_flat_assign[True] >= 1, f"load: {n_flat_assign[True]} path(s) rebuild the weight under `local_metadata.get('assign_to_params_buffers')` (assign mode is consulted)", "QModuleMixin._load_from_state_dict", "assign mode consulted",
+                    "load_state_dict(assign=True) into a model built on the meta device: the weight follows the copy route and lands on `meta`")
     chk.floor("C10.R2", n_paths, 4, "load paths")
 
 
